@@ -595,10 +595,10 @@ func (env *specEnv) evalCall(e *SExpr) sval {
 			env.fail(e, "iter() used outside an iteration clause")
 		}
 		n := *env
-		if n.gst == nil {
-			n.gst = env.cur
-		}
 		n.cur = fv.iterSnaps[len(fv.iterSnaps)-1]
+		// function-level ghost variables are read at the loop head too (they are forgotten there
+		// when a callee contract of the body sets them)
+		n.gst = n.cur
 		return n.eval(args[0])
 	case "len", "cap":
 		v := env.eval(args[0])
@@ -1051,10 +1051,21 @@ func (fv *funcVerifier) finishExits() {
 	// there, so that postconditions may mention it (guarded by the path, e.g. err == nil)
 	if fv.spec != nil && fv.fi.Decl != nil && fv.fi.Decl.Type != nil {
 		if top := fv.info.Scopes[fv.fi.Decl.Type]; top != nil {
+			// locals of nested blocks count too when their name is declared once in the function
+			// (a postcondition can then speak about the value computed in the iteration that returned)
+			declCount := map[string]int{}
+			for id, obj := range fv.info.Defs {
+				if v, ok := obj.(*types.Var); ok && !v.IsField() && id.Pos() >= fv.fi.Decl.Pos() && id.Pos() <= fv.fi.Decl.End() {
+					declCount[v.Name()]++
+				}
+			}
 			all := map[*types.Var]bool{}
 			for _, ex := range fv.exits {
 				for v := range ex.vars {
-					if v.Parent() == top && v.Name() != "" && v.Name() != "_" {
+					if v.Name() == "" || v.Name() == "_" {
+						continue
+					}
+					if v.Parent() == top || (declCount[v.Name()] == 1 && v.Pos() >= fv.fi.Decl.Pos() && v.Pos() <= fv.fi.Decl.End()) {
 						all[v] = true
 					}
 				}
